@@ -70,6 +70,16 @@ def check_complete(r, k):
         if _ints(acc[v]) != O.succ_s(v, k):
             r.v('C13|get_complete_accessor|row', 'complete', {'k': k}, O.succ_s(v, k), acc[v], 'row %d' % v)
             break
+    # a caller may trim its complete accessor in place (remove_nasty_arc does): the next request must still be complete
+    try:
+        acc[:] = -1
+    except Exception:
+        pass
+    st, acc2, _ = brun(dsw.get_complete_accessor, observed_length=k)
+    r.trans += 1
+    r.evals += 1
+    if st != 'ok' or getattr(acc2, 'shape', None) != (4 ** k, 4) or any(_ints(acc2[v]) != O.succ_s(v, k) for v in range(min(4 ** k, 256))):
+        r.v('C13|get_complete_accessor|not-complete-after-caller-trimmed-an-earlier-result', 'complete', {'k': k}, 'complete graph', None)
     r.states += 1
     r.nontriv += 1
 
